@@ -50,6 +50,7 @@ FIXTURE_SEED = {
     'ROOTTEST': 'RT1-set-delete-repair-root-parent-test',
     'BYPASS': 'BP2-maptree-pred-fast-path-equal',
     'DEFICIT': 'DF1-set-case4-no-handover',
+    'REDRED': 'RR1-set-insert-repair-no-climb',
 }
 # second fixture for LIVE on the seg family
 EXTRA_FIXTURES = {'C03': ['L4-seg-expiry-le'], 'C16': ['L4-seg-expiry-le']}
